@@ -681,6 +681,14 @@ def explore_space(job):
         if w.aborted:
             st["aborted"] += 1
             continue
+        if w.viol is not None and len(w.ops) < len(prefix):
+            # stopped by a violation inside the forced prefix: the same (shorter) sequence is enumerated, and
+            # counted, by the job that owns it; keep only the witness here
+            fp, desc = w.viol
+            rank = (bool(getattr(w, "draining", False)), len(w.ops))
+            if fp not in st["viol"] or rank < tuple(st["viol"][fp][1]["rank"]):
+                st["viol"][fp] = (desc, {"driver": kind, "cfg": cfg, "ops": list(w.ops), "rank": list(rank)})
+            continue
         st["exec"] += 1
         st["trans"] += w.transitions
         if w.nontrivial():
